@@ -127,6 +127,12 @@ def cases(draw, tier):
                     m_["collapsed_ids"] = ["was-" + i, "and-" + i]
     spec["history"] = [o for o in spec["history"]
                        if o["op"] not in ("transpose", "rename")]
+    if (3 * len(spec["obs"]) + len(spec["samp"])) % 5 == 0:
+        # group totals far below 1 (a power of two keeps sums and means
+        # exact): nothing may be rounded away as "residue"
+        spec["rows"] = [[x * 2.0 ** -40 for x in r] for r in spec["rows"]]
+        spec["history"] = [o for o in spec["history"]
+                           if o["op"] != "subsample"]
     what = draw(st.sampled_from(["partition", "partition", "collapse",
                                  "collapse", "one_to_many"]))
     case = {"table": spec, "axis": draw(ops.AX), "what": what,
